@@ -315,6 +315,10 @@ def _run(ctx):
             ("mem-sim", "mem", sim + ["-seed", seed, "-n", "60"]),
             ("mem-random", "mem", ["-random", "4", "-len", "40", "-seed", seed, "-n", "90", "-agedays", "30"]),
             ("pebble-random", "pebble", ["-random", "3", "-len", "40", "-seed", str(ctx.seed + 50), "-n", "90", "-agedays", "1100"]),
+            # a 3-replica receiver with leader transfers during pipelined 300-entry batches (small): a delivery whose
+            # proposals were cancelled must be answered with an error ("ack => applied"); same verdict rules as the
+            # thorough multi-replica stages (can reproduce the open finding c19-pipelined-drop-on-leader-change)
+            ("multi-replica-quick", "mem", ["-multi", "1", "-len", "12", "-mbatch", "300", "-n", "3700", "-seed", str(ctx.seed + 30)]),
             # regression stage for ee3b302 (restart of a pebble receiver from its snapshot): strict
             ("pebble-restart", "pebble", ["-random", "2", "-len", "40", "-seed", str(ctx.seed + 80), "-n", "90", "-agedays", "9"]),
         ]
@@ -388,7 +392,8 @@ def _run(ctx):
         "the sending side is the real log-syncer state machine (logSyncerSM send loop + RemoteLogSender over gRPC to the receiver's "
         "gRPC port): restarted incarnations that replay from at or far below the destination's position, one buffered batch or a "
         "stream cut into several batches, the receiver stopped and started while a batch is in flight (the sender's rpc fails and is "
-        "retried), two incarnations running at once. The driver plays the learner's raft itself (ApplyRaftRequest in log order); "
+        "retried), the receiving raft group away for most of a second while its server answers 404 'raft group not ready' (the batch "
+        "is not delivered and is sent again), two incarnations running at once, a learner hand-over. The driver plays the learner's raft itself (ApplyRaftRequest in log order); "
         "the learner's raft group, the sender's switch to a remote snapshot when the receiver is too far behind (PrepareSnapshot "
         "needs the source nodes' HTTP backup-check API) and the ignore-send switch (unexported) are not driven - the receiver's "
         "side of remote snapshots is driven directly (NotifyTransferSnap / NotifyApplySnap)",
